@@ -3,6 +3,7 @@
 from __future__ import annotations
 
 import itertools
+import types
 import json
 from collections import Counter
 
@@ -137,6 +138,47 @@ def _run_format(job):
         return obs
 
     return run
+
+
+def _rewrap(loaded, keep):
+    """a dataset assembled from already-loaded mazes under the loaded configuration (as filters and splits do): the
+    configuration's maze count is then stale, and the generation metadata is already collected"""
+    from maze_dataset import MazeDataset
+
+    return MazeDataset(cfg=loaded.cfg, mazes=[loaded.mazes[i] for i in keep], generation_metadata_collected=loaded.generation_metadata_collected)
+
+
+def _run_format_stale(job):
+    n, lengths, fmt, keep = job["n"], job["lengths"], job["fmt"], job["keep"]
+
+    def run(ctx, pinned=None):
+        from maze_dataset import MazeDataset
+
+        ds, terms = _sym_dataset(ctx, n, lengths, sym_bits=job.get("sym_bits", True))
+        first = MazeDataset.load(getattr(ds, FORMATS[fmt])())
+        ds2 = _rewrap(first, keep)
+        loaded = MazeDataset.load(getattr(ds2, FORMATS[job.get("fmt2", fmt)])())
+        return _maze_obligations(loaded, [terms[i] for i in keep], n, f"{fmt} after re-wrapping {keep} of {len(lengths)} loaded mazes")
+
+    return run
+
+
+def _replay_format_stale(job, inputs, notes):
+    from maze_dataset import MazeDataset
+
+    ds = _concrete_dataset(job["n"], job["lengths"], inputs, sym_bits=job.get("sym_bits", True))
+    ref = _concrete_dataset(job["n"], job["lengths"], inputs, sym_bits=job.get("sym_bits", True))
+    tag = f"lengths {job['lengths']} grid {job['n']}, dataset re-assembled from loaded mazes {job['keep']} (configuration says {len(job['lengths'])} mazes)"
+    try:
+        first = MazeDataset.load(getattr(ds, FORMATS[job["fmt"]])())
+        loaded = MazeDataset.load(getattr(_rewrap(first, job["keep"]), FORMATS[job.get("fmt2", job["fmt"])])())
+    except Exception as e:
+        return f"roundtrip-raises:{job['fmt']} | {tag}: {type(e).__name__}: {str(e)[:120]}"
+    want = types.SimpleNamespace(mazes=[ref.mazes[i] for i in job["keep"]])
+    why = _same_mazes(want, loaded)
+    if why:
+        return f"roundtrip-mazes:{job['fmt']} | {tag}: {why}"
+    return None
 
 
 def _run_dispatch(job):
@@ -376,6 +418,12 @@ def jobs(tier, seed):
             out.append(dict(h="format", n=2 if sum(v) % 2 else 3, lengths=v, fmt=fmt))
     for v in ([[1], [2, 1]] if q else [[1], [2, 1], [1, 3, 2]]):
         out.append(dict(h="format", n=2, lengths=v, fmt="full", sym_bits=False, max_seconds=3300))
+    # datasets re-assembled from loaded mazes: fewer / more mazes than the configuration's (stale) count, metadata already collected
+    for v, keeps in [([2, 1, 3], [[0], [1, 2], [2, 0, 1, 0]]), ([1, 2], [[1], [0, 1, 1]])] + ([] if q else [([3, 1, 2, 2], [[3, 1], [0, 1, 2, 3, 2, 1]])]):
+        for keep in keeps:
+            for fmt in ("minimal", "soln_cat"):
+                out.append(dict(h="format_stale", n=2 if sum(v) % 2 else 3, lengths=v, fmt=fmt, keep=keep))
+            out.append(dict(h="format_stale", n=2, lengths=v, fmt="minimal", fmt2="soln_cat", keep=keep, sym_bits=False))
     for v in ([[2], [1, 2, 3], [3, 1]] if q else [[2], [1, 2, 3], [3, 1], [1, 1, 1, 1], [2, 4, 1, 3]]):
         out.append(dict(h="dispatch", n=3, lengths=v))
     for members, thr in [([[1, 2], [3]], None), ([[1, 2], [3]], 1), ([[2], [], [1, 1]], None), ([[], [2]], None)] + ([] if q else [([[1], [2, 2], [3]], 2), ([[], [], [1]], None)]):
@@ -391,7 +439,7 @@ def jobs(tier, seed):
 
 
 _P = dict(np_modules=["maze_dataset.maze.lattice_maze", "maze_dataset.dataset.maze_dataset"], stub_ascii=False)
-HARNESSES = {"format": dict(run=_run_format, replay=_replay_format, patch=_P), "dispatch": dict(run=_run_dispatch, replay=_replay_dispatch, patch=_P),
+HARNESSES = {"format": dict(run=_run_format, replay=_replay_format, patch=_P), "format_stale": dict(run=_run_format_stale, replay=_replay_format_stale, patch=_P), "dispatch": dict(run=_run_dispatch, replay=_replay_dispatch, patch=_P),
              "collection": dict(run=_run_collection, replay=_replay_collection, patch=_P),
              "large": dict(run=_run_large, replay=_replay_large, patch=dict(np_modules=[], stub_ascii=False))}
 
@@ -401,7 +449,7 @@ META = dict(
     bounds=dict(
         quick="in memory; every connection bit and every solution cell symbolic; all ragged solution-length vectors over 1..3 for 1..3 mazes on 2x2 / 3x3 for the two "
               "minimal formats; full format on 2x2 with symbolic solution cells; serialize()/load() with the minimal-format threshold symbolic (or None); collections of "
-              "2-3 members incl. empty members; plus concrete (non-symbolic) round trips at sizes beyond the symbolic bound: grids 12 and 16 with solution "
+              "2-3 members incl. empty members; datasets re-assembled from loaded mazes (stale maze count, metadata already collected); plus concrete (non-symbolic) round trips at sizes beyond the symbolic bound: grids 12 and 16 with solution "
               "lengths 127..256, 99 / 100 / 101 mazes against the default threshold",
         thorough="length vectors up to 4 mazes / lengths 5, more collections, concrete runs on 20x20 with 400-cell solutions and 120 mazes",
     ),
